@@ -421,7 +421,7 @@ def c11(ctx):
 def c06(ctx):
     q = ctx.quick
     only = ['H_map_p0_ops2', 'H_map_p7_ops1', 'H_map_p8_ops1', 'H_map_clear_refill', 'H_map_clear_regrow', 'H_map_clear_rounds', 'H_map_chain2', 'H_map_nil',
-            'H_map_samesize_iter', 'H_map_samesize_iter_del', 'H_map_samesize_clear', 'H_map_nan_iter_grow', 'H_map_nan_iter_grow_wide'] if q else None
+            'H_map_samesize_iter', 'H_map_samesize_iter_del', 'H_map_samesize_clear', 'H_map_nan_iter_grow', 'H_map_nan_iter_grow_wide', 'H_map_float_zero_nan'] if q else None
     return [rt_job(ctx, 'map', [H(ctx, 'C06', 'map_h.go')], unwind=200, deadline_s=900 if q else 3000, only=only)]
 
 
